@@ -318,6 +318,27 @@ Theorem C18_unsupported_kinds_err : forall k x,
 Proof. exact scalar_unhandled_errs. Qed.
 Print Assumptions C18_unsupported_kinds_err.
 
+(* the same for wktSchema and for the codec's two type switches, as PROBES of the model functions (not as
+   comparisons of two hand-written lists): the model answers with a schema for every name the Go switch
+   of wktSchema lists and for no other name, whatever the annotations; a schema type without an arm in
+   newFieldFactory / newMessageFieldFactory reaches the model's default arm (an error), one with an arm
+   does not *)
+Theorem C18_wkt_arms_are_the_code's :
+  forallb (fun n => match wkt_schema n empty_exts with ROk (Some _) => true | _ => false end) gen_wkt_names = true /\
+  forall full x, forallb (fun n => negb (str_eqb full n)) gen_wkt_names = true -> wkt_schema full x = ROk None.
+Proof. exact (conj wkt_arms_probe wkt_only_the_go_arms). Qed.
+Print Assumptions C18_wkt_arms_are_the_code's.
+
+Theorem C18_factory_arms_are_the_code's :
+  (forall st s f, name_in (schema_go_name s) ReflectGen.newFieldFactory_arms = false <->
+                  leaf_factory st s f = Err "newFieldFactory: unsupported schema for leaf field") /\
+  (forall D st s f, name_in (schema_go_name s) ReflectGen.newMessageFieldFactory_arms = false ->
+                    message_factory D st s f = Err "newMessageFieldFactory: unsupported schema for message field") /\
+  (forall D s f, name_in (schema_go_name s) ReflectGen.newMessageFieldFactory_arms = true ->
+                 message_factory D [] s f <> Err "newMessageFieldFactory: unsupported schema for message field").
+Proof. exact (conj leaf_factory_default_iff (conj message_factory_default message_factory_arms_probe)). Qed.
+Print Assumptions C18_factory_arms_are_the_code's.
+
 Definition ex_fopts := FOpts None None None None.
 
 (* ---- where the faithful model violates the full statement (each witness replays on the real code;
